@@ -210,7 +210,7 @@ func init() {
 		}
 		var fn *ssa.Function
 		if sel := fr.i.prog.MethodSets.MethodSet(types.NewPointer(T)).Lookup(s.TPkg, method); sel != nil {
-			fn = fr.i.prog.MethodValue(sel)
+			fn = fr.i.methodValue(sel)
 		}
 		doc := x.docs[a[3].(int)]
 		res := &S2Result{RecvType: T}
